@@ -59,6 +59,11 @@ def apply_variant(sources: Dict[str, str], v: dict) -> Optional[Dict[str, str]]:
         from selftest.transforms import rename_module
 
         return {k: rename_module(t) for k, t in sources.items()}
+    if v.get("global") == "keywordize":
+        from selftest.transforms import keywordize_module
+
+        r0 = Repo(sources=sources)
+        return {k: keywordize_module(r0, k) for k in sources}
     out = dict(sources)
     for edit in v["edits"]:
         path = edit["file"]
@@ -141,6 +146,8 @@ def run_for(prop: str, seed: int = 0, jobs: int = 16) -> dict:
     variants = [v for v in VARIANTS if v["property"] == prop]
     variants.append({"property": prop, "id": "%s-reformat-all" % prop, "kind": "silent", "rule": None, "edits": [], "global": "reformat",
                      "note": "all sources re-printed by ast.unparse (layout, comments and line numbers change, behaviour does not)"})
+    variants.append({"property": prop, "id": "%s-keyword-arguments" % prop, "kind": "silent", "rule": None, "edits": [], "global": "keywordize",
+                     "note": "positional arguments of calls to repository functions (all but the first) written as keywords"})
     variants.append({"property": prop, "id": "%s-rename-all-locals" % prop, "kind": "silent", "rule": None, "edits": [], "global": "rename-locals",
                      "note": "every function-local variable of every function without closures renamed (<name>_rn)"})
     try:
